@@ -1,0 +1,38 @@
+//go:build verif
+
+package ast
+
+import "github.com/inspirer/textmapper/parsers/js"
+
+// VerifEvent is one listener call.
+type VerifEvent struct {
+	Type              js.NodeType
+	Offset, Endoffset int
+}
+
+// VerifForest feeds the events to the unexported builder (addNode) and returns its stack.
+func VerifForest(content string, evs []VerifEvent) []*Node {
+	b := newBuilder("verif", content)
+	for _, e := range evs {
+		b.addNode(e.Type, e.Offset, e.Endoffset)
+	}
+	return b.stack
+}
+
+// VerifBuild feeds the events to the unexported builder and finishes with builder.build().
+func VerifBuild(content string, evs []VerifEvent) (*Tree, error) {
+	b := newBuilder("verif", content)
+	for _, e := range evs {
+		b.addNode(e.Type, e.Offset, e.Endoffset)
+	}
+	return b.build()
+}
+
+// VerifChildren returns all children of n in sibling order.
+func VerifChildren(n *Node) []*Node {
+	var ret []*Node
+	for c := n.firstChild; c != nil; c = c.next {
+		ret = append(ret, c)
+	}
+	return ret
+}
